@@ -295,9 +295,9 @@ func pairSecond(thorough bool) []string {
 	return a
 }
 
-func programs(thorough bool) []program {
-	var ps []program
-	add := func(p program) { ps = append(ps, p) }
+// programs streams every program of the tier, simplest families first (nothing is kept: the thorough
+// tier has more than a million of them and every worker enumerates all)
+func programs(thorough bool, add func(program)) {
 	// 1. single filter applications, printed and assigned-then-processed
 	for _, v := range valueExprs {
 		for _, f := range filters {
@@ -360,7 +360,173 @@ func programs(thorough bool) []program {
 			add(program{key: fmt.Sprintf("scope/%d/%s", i, v), family: "scope", touches: "scope" + strconv.Itoa(i), main: src, others: inc})
 		}
 	}
-	return ps
+	collisionPrograms(add)
+	chainPrograms(thorough, add)
+}
+
+// 4. a template-side NAME that collides with a caller's key: import alias, from-import alias, set, loop
+// variables, macro name, macro parameter, block name, include-with key — for every top-level key K of the
+// context; and a template-side name q that the template itself bound to a caller's value V (set, loop
+// variable over [V] and over V, include-with, macro parameter) and that is then bound again by each of
+// those constructs. Whatever the construct does with the name, it must not write through to the value the
+// name was bound to.
+var ctxKeys = []string{"xs", "ss", "is", "fs", "i64", "ids", "names", "lmt", "attrs", "arr", "parr", "m", "mt", "ms", "mi", "st", "pst", "pxs", "s", "i", "nested", "lm", "e", "sep"}
+
+const clib = "{% macro mm(p) %}{{ p }}{% endmacro %}{% macro ww(a, b) %}{{ a }}{{ b }}{% endmacro %}"
+
+func collisionPrograms(add func(program)) {
+	for _, k := range ctxKeys {
+		others := map[string]string{
+			"clib":  clib,
+			"libK":  "{% macro " + k + "(p) %}{{ p|length }}{% endmacro %}",
+			"impK":  "{% import 'clib' as " + k + " %}{{ " + k + ".mm(1) }}",
+			"fromK": "{% from 'clib' import mm as " + k + " %}{{ " + k + "(1) }}",
+			"setK":  "{% set " + k + " = [1] %}{% set " + k + " = " + k + "|merge([2]) %}{{ " + k + "|length }}",
+			"rdK":   "{{ " + k + "|length }}",
+			"baseK": "{% block " + k + " %}{% endblock %}{{ " + k + "|length }}",
+		}
+		for i, src := range []string{
+			"{% import 'clib' as K %}{{ K.mm(1) }}",
+			"{{ K|length }}{% import 'clib' as K %}{{ K.mm(1) }}{{ K.ww(1, 2) }}{{ K|length }}",
+			"{% for x in [1, 2] %}{% import 'clib' as K %}{{ K.mm(x) }}{% endfor %}{{ K|length }}",
+			"{% include 'impK' %}{% include 'impK' %}{{ K|length }}",
+			"{% include 'impK' with {'K': K} %}{% include 'impK' with {'K': K} only %}",
+			"{% macro mm(p) %}{{ p }}{% endmacro %}{% import _self as K %}{{ K.mm(1) }}",
+			"{% from 'clib' import mm as K %}{{ K(1) }}",
+			"{% from 'clib' import mm as K, ww as K %}{{ K(1, 2) }}",
+			"{% include 'fromK' %}{% include 'fromK' with {'K': K} %}{% include 'fromK' with {'K': K} only %}",
+			"{% from 'libK' import K %}{{ K(1) }}",
+			"{% import 'libK' as l %}{{ l.K(K) }}",
+			"{% set K = [1] %}{% set K = K|merge([2]) %}{{ K|length }}",
+			"{% for K in [1, 2] %}{{ K }}{% endfor %}{{ K|length }}",
+			"{% for K, x in {'a': 1} %}{{ K }}{% endfor %}{% for j, K in [5] %}{{ K }}{% endfor %}{{ K|length }}",
+			"{% for K in K %}{% set K = 1 %}{% endfor %}{{ K|length }}",
+			"{% macro K(p) %}{{ p }}{% endmacro %}{{ K(1) }}{{ _self.K(2) }}{{ K|length }}",
+			"{% macro mm(K) %}{% set K = 1 %}{{ K }}{% endmacro %}{{ mm(K) }}{{ mm(2) }}{{ K|length }}",
+			"{% macro mm(K) %}{% import 'clib' as K %}{{ K.mm(1) }}{% endmacro %}{{ mm(K) }}{{ _self.mm(K) }}",
+			"{% macro mm(K) %}{% from 'clib' import mm as K %}{{ K(1) }}{% endmacro %}{{ mm(K) }}{{ _self.mm(K) }}",
+			"{% block K %}{{ K|length }}{% endblock %}{{ K|length }}",
+			"{% block K %}{% set K = 1 %}{% import 'clib' as K %}{% endblock %}{{ K|length }}",
+			"{% include 'rdK' with {'K': 1} %}{{ K|length }}",
+			"{% include 'setK' with {'K': K} %}{{ K|length }}",
+			"{% include 'setK' with {'K': K} only %}{% include 'setK' %}{{ K|length }}",
+			"{% extends 'baseK' %}{% block K %}{% set K = 1 %}{% import 'clib' as K %}{{ K.mm(1) }}{% endblock %}",
+			"{% apply upper %}{% import 'clib' as K %}{{ K.mm('a') }}{% set K = 1 %}{% endapply %}{{ K|length }}",
+			"{% if true %}{% import 'clib' as K %}{% endif %}{% if K %}{% set K = 0 %}{% endif %}{{ K|length }}",
+		} {
+			add(program{key: fmt.Sprintf("collide/%d/%s", i, k), family: "collide", touches: "collide" + strconv.Itoa(i),
+				main: strings.ReplaceAll(src, "K", k), others: others})
+		}
+	}
+	rebind := []string{
+		"{% import 'clib' as q %}{{ q.mm(1) }}",
+		"{% from 'clib' import mm as q %}{{ q(1) }}",
+		"{% set q = 1 %}{{ q }}",
+		"{% for q in [1] %}{{ q }}{% endfor %}",
+		"{% macro mm(p) %}{{ p }}{% endmacro %}{% import _self as q %}{{ q.mm(1) }}",
+		"{% for x in [1, 2] %}{% import 'clib' as q %}{{ q.mm(x) }}{% endfor %}",
+	}
+	for _, v := range valueExprs {
+		for ri, r := range rebind {
+			others := map[string]string{"clib": clib, "reb": r}
+			for bi, src := range []string{
+				"{% set q = " + v + " %}" + r + "{{ " + v + "|length }}",
+				"{% for q in [" + v + "] %}" + r + "{% endfor %}{{ " + v + "|length }}",
+				"{% for q in " + v + " %}" + r + "{% endfor %}{{ " + v + "|length }}",
+				"{% include 'reb' with {'q': " + v + "} %}{% include 'reb' with {'q': " + v + "} only %}{{ " + v + "|length }}",
+				"{% macro w(q) %}" + r + "{% endmacro %}{{ w(" + v + ") }}{{ _self.w(" + v + ") }}{{ " + v + "|length }}",
+			} {
+				add(program{key: fmt.Sprintf("bound/%d/%d/%s", bi, ri, v), family: "bound", touches: fmt.Sprintf("bound%d.%d", bi, ri), main: src, others: others})
+			}
+		}
+	}
+}
+
+// 5. filter CHAINS written as one expression, V|F1|F2 and V|F1|F2|F3: the value one filter hands to the next
+// may be the caller's own (default on a non-empty value, raw, slice window, first/last of a list of lists),
+// so no later member of the chain may work in place. Positions: printed, assigned, macro/function argument,
+// for-sequence, and "held" (the chain is applied to a value obtained from a filter earlier, which is
+// observed before and after).
+func chainAll(thorough bool) []string {
+	a := []string{"default(xs)", "escape", "e", "upper", "lower", "trim", "raw", "length", "count", "join(',')", "split(',')", "date", "url_encode", "capitalize", "title",
+		"first", "last", "slice(0, 2)", "reverse", "sort", "keys", "merge([9])", "replace('a', 'b')", "striptags", "number_format", "abs", "round", "nl2br", "format", "json_encode", "spaceless",
+		"default([])", "slice(1)", "slice(0, 1)", "merge(xs)", "merge(m)", "merge([7, 6, 5, 4, 3])", "default(m)"}
+	if thorough {
+		a = append(a, "slice(-2)", "slice(1, 1)", "slice(0, 5)", "merge(ss)", "merge(is)", "merge({'q': 1})", "merge(mt)", "default(1)", "join", "split('')", "round(1)", "format(1)")
+	}
+	return a
+}
+
+// the mutating / pass-through subset: default, raw, slice, first, last, sort, reverse, merge, keys, join
+func chainCol() []string {
+	return []string{"default(xs)", "default([])", "raw", "slice(0, 2)", "slice(1)", "first", "last", "sort", "reverse", "merge([9])", "merge(xs)", "merge(m)", "keys", "join(',')"}
+}
+
+func chainTri(thorough bool) []string {
+	if thorough {
+		return chainCol()
+	}
+	return []string{"default(xs)", "raw", "slice(0, 2)", "first", "last", "sort", "reverse", "merge([9])", "keys", "join(',')"}
+}
+
+var chainPositions = []string{"print", "set", "arg", "for", "held"}
+
+func chainProgram(pos, v string, fs []string) program {
+	c := v + "|" + strings.Join(fs, "|")
+	last := strings.SplitN(fs[len(fs)-1], "(", 2)[0]
+	p := program{key: "chain/" + pos + "/" + c, family: "chain" + strconv.Itoa(len(fs)), touches: pos + ">" + last}
+	for _, f := range fs {
+		if f == "date" {
+			p.noOut = true
+		}
+	}
+	switch pos {
+	case "print":
+		p.main = "{{ " + c + " }}"
+	case "set":
+		p.main = "{% set t = " + c + " %}{{ t|json_encode }}{{ " + v + "|json_encode }}"
+	case "arg":
+		p.main = "{% macro mm(p) %}{{ p|json_encode }}{% endmacro %}{{ mm(" + c + ") }}{{ length(" + c + ") }}{{ " + v + "|json_encode }}"
+	case "for":
+		p.main = "{% for x in " + c + " %}{{ x|json_encode }},{% endfor %}{{ " + v + "|json_encode }}"
+	case "held":
+		p.marks = true
+		p.main = "{% set s = " + v + "|" + fs[0] + " %}{% set o = s|json_encode %}{% set t = s|" + strings.Join(fs[1:], "|") + " %}{{ o }}#{{ s|json_encode }}#{{ t|json_encode }}#{{ " + v + "|json_encode }}"
+	}
+	return p
+}
+
+func chainPrograms(thorough bool, add func(program)) {
+	all, col, tri := chainAll(thorough), chainCol(), chainTri(thorough)
+	// pairs: every ordered pair of the whole filter alphabet, printed (thorough: in every position) …
+	for _, pos := range chainPositions {
+		if pos == "held" { // a held value and a single further filter is family 2
+			continue
+		}
+		set := all
+		if pos != "print" && !thorough {
+			set = col // … and every ordered pair of the collection subset in the other positions
+		}
+		for _, v := range valueExprs {
+			for _, f1 := range set {
+				for _, f2 := range set {
+					add(chainProgram(pos, v, []string{f1, f2}))
+				}
+			}
+		}
+	}
+	// triples of the collection subset in every position
+	for _, pos := range chainPositions {
+		for _, v := range valueExprs {
+			for _, f1 := range tri {
+				for _, f2 := range tri {
+					for _, f3 := range tri {
+						add(chainProgram(pos, v, []string{f1, f2, f3}))
+					}
+				}
+			}
+		}
+	}
 }
 
 // ---------------------------------------------------------------------------------------------
@@ -437,10 +603,9 @@ func main() {
 		QuickDeadline:    150,
 		ThoroughDeadline: 1200,
 		Run: func(t *vlib.T) {
-			for _, p := range programs(t.Thorough()) {
-				p := p
+			programs(t.Thorough(), func(p program) {
 				t.Case(p.key, func() *vlib.Outcome { return runProgram(p) })
-			}
+			})
 		},
 	})
 }
